@@ -221,6 +221,68 @@ def expected_domains(case):
         out.append(hits)
     return out
 
+def vertex_coordinates(m):
+    """coordinates of the geometry vertices in the order add_vertex creates them (first appearance of each point)"""
+    seen = {}; out = []
+    for name, vs, ts in m["meshes"]:
+        for v in vs:
+            k = tuple(float(c) + 0.0 for c in v)
+            if k not in seen: seen[k] = len(out); out.append(k)
+    return out
+
+def decode_domains(rest, nprobes):
+    it = iter(rest[nprobes:]); nx = lambda: next(it)
+    nd = nx(); doms = []
+    for _ in range(nd):
+        nb = nx(); bs = []
+        for _ in range(nb):
+            ins = nx(); no = nx(); bs.append((ins, [(nx(), nx()) for _ in range(no)]))
+        doms.append(bs)
+    return doms
+
+def property_failures(c, ii, if_):
+    """every relation of the property statement that can be evaluated on the implementation output alone:
+    (signature, description) list + number of probe points looked at"""
+    bad = []; nprobe = 0
+    tagk = c["tag"].split(":")[-1]
+    for kind, what in own_relations(c, ii, if_): bad.append(("%s: %s (%s)" % (kind, what, c["tag"]), what))
+    D = decode(ii)
+    # every interface oriented outward whatever the winding in the files: signed volume of (orientation x loaded winding)
+    try:
+        X = vertex_coordinates(c["model"]); doms = decode_domains(D["rest"], len(c["probes"]))
+        for k, bs in enumerate(doms):
+            for ins, oms in bs:
+                vol = sum(o * gd.signed_volume6(X, D["meshes"][mk]["tris"]) for o, mk in oms)
+                if not vol < 0:
+                    bad.append(("orientation: interface not oriented outward (%s)" % tagk,
+                                "domain %d: an interface (meshes %s) keeps orientation x winding with signed volume %+.3g; the library's outward convention needs a negative one" % (k, [mk for _, mk in oms], vol / 6)))
+                    raise StopIteration
+    except StopIteration: pass
+    except Exception: pass
+    if c["probes"]:
+        got = D["rest"][:len(c["probes"])]
+        for p, gk, hits in zip(c["probes"], got, expected_domains(c)):
+            nprobe += 1
+            if len(hits) != 1 or gk != hits[0]:
+                names = [n for n, _ in c["model"]["domains"]]
+                bad.append(("domain(p): %s" % tagk, "probe point %r lies in domain(s) %s geometrically but Geometry::domain returned %s" % (p, [names[h] for h in hits], names[gk] if 0 <= gk < len(names) else gk)))
+                break
+    if c["tag"].startswith("base:"):
+        want, what = expected_nested(c["model"]); got = D["nested"]
+        if want is not None and bool(got) != want:
+            label = "sibling inclusions" if c["model"]["info"].get("kind") == "inclusions" else what
+            bad.append(("nested classification: %s classified %s" % (label, "nested" if got else "non-nested"),
+                        "is_nested() = %d for a model with %s (the interfaces %s a chain under inclusion); witness of nested_classification_correct_refuted replayed on the library" % (got, what, "form" if want else "do not form")))
+    lf = os.path.join(c["dir"], "loaded.txt")
+    if c["has_cond"] and os.path.exists(lf):
+        for line in open(lf):
+            t = line.split()
+            if t and t[0] == "domain":
+                want = c["cond_first"].get(t[1])
+                if want is None or float.fromhex(t[2]) != float(want):
+                    bad.append(("conductivity of %s" % c["tag"].split(":")[0], "domain %s got conductivity %s, file says %r" % (t[1], t[2], want))); break
+    return bad, nprobe
+
 # ------------------------------------------------------------------ main
 def main(replay=None):
     ck = core.Check(PROP, "proof")
@@ -327,50 +389,23 @@ def main(replay=None):
             where = next((k for k, (a, b) in enumerate(zip(mi, ii)) if a != b), min(len(mi), len(ii)))
             rep.update(model_out=m_[:4000], impl_out=i_[:4000], first_difference=where)
             # the model is proved to satisfy the index/pair/domain theorems: if the implementation output itself breaks one
-            # of them the mismatch is a concrete failing input of the property
-            bad = own_relations(c, ii, if_) if ii and ii[0] == 0 else []
+            # of them the mismatch is a concrete failing input of the property; otherwise only the tie is broken
+            bad, _ = property_failures(c, ii, if_) if ii and ii[0] == 0 else ([], 0)
+            # a valid description that the library refuses to load violates "after loading any valid description ..."
+            if ii and ii[0] != 0 and mi and mi[0] == 0 and not c["tag"].startswith("error"):
+                bad = [("valid description rejected (%s)" % c["tag"].split(":")[-1], "the library refuses (status %d) a valid generated description (%s) that the model loads" % (ii[0], c["tag"]))]
             if bad:
-                ck.violation("%s: %s (%s)" % (bad[0][0], bad[0][1], c["tag"]), "loaded geometry violates the property: %s; description kind %s" % (bad[0][1], c["tag"]), rep)
+                for sig, what in bad[:3]: ck.violation(sig, "loaded geometry violates the property: %s" % what, rep)
             else:
                 fld = first_diff_field(mi, ii) if (mi == ii) is False and len(mf) == len(if_) else "float-valued accessors"
                 if mi == ii: fld = "sigma / sigma_inv / indicator / conductivity_jump / conductivities"
-                ck.violation("correspondence %s" % c["tag"].split(":")[0], "model and implementation disagree on a generated description (%s, syntax %s): first difference in %s (output position %d; model status %s, implementation status %s)"
-                             % (c["tag"], c["style"], fld, where, mi[:1], ii[:1]), rep)
+                ck.violation("correspondence %s" % c["tag"].split(":")[0], "model and implementation disagree on a generated description (%s, syntax %s): first difference in %s (output position %d; model status %s, implementation status %s); none of the property's own relations fails on the implementation output, so only the tie between model and source is broken"
+                             % (c["tag"], c["style"], fld, where, mi[:1], ii[:1]), rep, found_input=False)
             continue
         if mi[0] == 0: nontriv.add(c["mline"])
-        # property relations on the (agreeing) output
-        for kind, what in own_relations(c, ii, if_):
-            ck.violation("%s: %s (%s)" % (kind, what, c["tag"]), "loaded geometry violates the property: %s" % what, rep)
-        if mi[0] == 0 and c["probes"]:
-            D = decode(ii); nm = len(D["meshes"])
-            # probe answers sit after the parts in `rest`
-            got = D["rest"][:len(c["probes"])]
-            exp = expected_domains(c)
-            for p, gk, hits in zip(c["probes"], got, exp):
-                nprobe += 1
-                if len(hits) != 1 or gk != hits[0]:
-                    names = [n for n, _ in c["model"]["domains"]]
-                    ck.violation("domain(p): %s" % c["tag"].split(":")[-1],
-                                 "probe point %r lies in domain(s) %s geometrically but Geometry::domain returned %s" % (p, [names[h] for h in hits], names[gk] if 0 <= gk < len(names) else gk), rep)
-                    break
-        # nested / non-nested classification against the geometric truth of the generated topology
-        if mi[0] == 0 and c["tag"].startswith("base:"):
-            want, what = expected_nested(c["model"])
-            got = decode(ii)["nested"]
-            if want is not None and bool(got) != want:
-                label = "sibling inclusions" if c["model"]["info"].get("kind") == "inclusions" else what
-                ck.violation("nested classification: %s classified %s" % (label, "nested" if got else "non-nested"),
-                             "is_nested() = %d for a model with %s (the interfaces %s a chain under inclusion); witness of nested_classification_correct_refuted replayed on the library"
-                             % (got, what, "form" if want else "do not form"), rep)
-        # conductivities attached by name
-        lf = os.path.join(c["dir"], "loaded.txt")
-        if mi[0] == 0 and c["has_cond"] and os.path.exists(lf):
-            for line in open(lf):
-                t = line.split()
-                if t[0] == "domain":
-                    want = c["cond_first"].get(t[1])
-                    if want is None or float.fromhex(t[2]) != float(want):
-                        ck.violation("conductivity of %s" % c["tag"].split(":")[0], "domain %s got conductivity %s, file says %r" % (t[1], t[2], want), rep)
+        bad, np_ = property_failures(c, ii, if_) if mi[0] == 0 else ([], 0)
+        nprobe += np_
+        for sig, what in bad: ck.violation(sig, "loaded geometry violates the property: %s" % what, rep)
     ck.cov.update(evaluations=len(cases), distinct_nontrivial=len(nontriv),
                   rule="generated head descriptions (nested 1-4 layers, zero-conductivity layers, split hemispheres with shared vertices, sibling and non-conductive inclusions) x re-descriptions x concrete syntaxes (1.1 named/commented/interface-shorthand/unnamed, legacy 1.0), ~15% damaged descriptions; non-trivial = loads successfully; distinct = distinct abstract descriptions",
                   samples=[c["mline"][:300] for c in cases[:2]], op_distribution=dist, error_outcomes=errs,
